@@ -1,9 +1,14 @@
 //! hx_c39: MemWAL index state machine under concurrency (C39).
+mod common;
+mod e2e;
 mod probe;
+mod run;
+mod unit;
 
 fn main() {
     let (sub, args) = hxlib::util::Args::parse();
     let code = match sub.as_str() {
+        "c39" => run::run(&args),
         "probe" => probe::run(&args),
         _ => {
             eprintln!("unknown subcommand {sub}");
